@@ -21,7 +21,7 @@ class DeferredBase(CheckDef):
         'thorough': [ModelRun('DeferredMC.tla', 'Deferred_quick.cfg', workers=16, xmx='24g', note='2 submitters x 2 + reader x 2'),
                      ModelRun('DeferredMC.tla', 'Deferred_quick2.cfg', workers=16, xmx='24g', note='all shared forms and load, shared and plain mutex'),
                      ModelRun('DeferredMC.tla', 'Deferred_throw.cfg', workers=16, xmx='24g'),
-                     ModelRun('DeferredMC.tla', 'Deferred_thorough.cfg', workers=16, xmx='28g', timeout=300, simulate='num=600000',
+                     ModelRun('DeferredMC.tla', 'Deferred_thorough.cfg', workers=16, xmx='28g', timeout=200, simulate='num=600000',
                               note='3 submitters x 2 + reader; 2 x 2 + 2 readers x 2: simulation')],
     }
     programs = {
